@@ -90,7 +90,7 @@ func allCECases() []ceCase {
 				for _, so := range []string{"set", "nil", "empty"} {
 					for _, sg := range []string{"absent", "ok", "failing"} {
 						for _, l := range []string{"listed", "unlisted"} {
-							for _, p := range []string{"nil", "true", "false", "error"} {
+							for _, p := range []string{"nil", "true", "false", "error", "true-error"} {
 								out = append(out, ceCase{k, f, sc, so, sg, l, p})
 							}
 						}
@@ -174,7 +174,7 @@ func TestC18(t *testing.T) {
 			}
 			var sawCE interface{}
 			switch c.Predicate {
-			case "true", "false", "error":
+			case "true", "false", "error", "true-error":
 				p := c.Predicate
 				f.Predicate = func(ctx context.Context, ce interface{}) (bool, error) {
 					sawCE = ce
@@ -183,6 +183,8 @@ func TestC18(t *testing.T) {
 						return true, nil
 					case "false":
 						return false, nil
+					case "true-error":
+						return true, errPredicate
 					}
 					return false, errPredicate
 				}
@@ -267,9 +269,9 @@ func TestC18(t *testing.T) {
 				if err != nil || out != nil {
 					bad("forwarding", fmt.Sprintf("predicate false: the event must be dropped without error (err=%v)", err))
 				}
-			case "error":
+			case "error", "true-error":
 				if err == nil || out != nil {
-					bad("forwarding", "predicate error: an error must be returned and nothing forwarded")
+					bad("forwarding", "predicate "+c.Predicate+": an error from the predicate is an error and nothing is forwarded")
 				}
 			}
 			if c.Predicate != "nil" && sawCE == nil {
